@@ -14,6 +14,7 @@ import (
 	"context"
 	"fmt"
 	"sort"
+	"strings"
 	"sync"
 	"sync/atomic"
 	"time"
@@ -248,7 +249,17 @@ func verifWRunScenario(id int, seed uint64, out *verifWOut) map[string]interface
 		}
 	}
 	sort.Ints(fw)
-	if started {
+	// a request that timed out inside the watcher's own HTTP client (10 s; only on an overloaded machine - the simulated node answers at
+	// once) is a node API error from the watcher's point of view: Run returns, as it should; the scenario says nothing about liveness
+	clientTimeout := false
+	emu.Lock()
+	for _, e := range runErrs {
+		if strings.Contains(e, "context deadline exceeded") || strings.Contains(e, "Client.Timeout") {
+			clientTimeout = true
+		}
+	}
+	emu.Unlock()
+	if started && !clientTimeout {
 		for u, x := range exps {
 			if x.must && seen[u] == 0 {
 				e := x.e
@@ -258,7 +269,7 @@ func verifWRunScenario(id int, seed uint64, out *verifWOut) map[string]interface
 		}
 	}
 	emu.Lock()
-	if len(runErrs) > 0 {
+	if len(runErrs) > 0 && !clientTimeout {
 		flag("C09", "run-terminated", fmt.Sprintf("%s: Watcher.Run returned although every node request succeeded: %s", hist, runErrs[0]))
 	}
 	emu.Unlock()
@@ -276,7 +287,7 @@ func verifWRunScenario(id int, seed uint64, out *verifWOut) map[string]interface
 	}
 	return map[string]interface{}{"k": "run", "id": id, "mainnet": h.mainnet, "pre": pre, "page_size": sim.free.pageSize, "land_every": sim.free.landEvery,
 		"low_height": lowHeight, "high_height": highHeight, "raise_ms_after_start": raiseAt - t0, "events": evs, "forwarded": fw, "count_requests": countReqs, "page_requests": pageReqs,
-		"mon": mon, "ms": time.Now().UnixMilli() - t0}
+		"mon": mon, "ms": time.Now().UnixMilli() - t0, "client_timeout": clientTimeout}
 }
 
 // ------------------------------------------------------------------ _fetchHeight on its own: gate, request, hand-over
